@@ -5,6 +5,7 @@ package main
 
 import (
 	"encoding/json"
+	"fmt"
 	"math"
 	"math/rand"
 	"time"
@@ -254,15 +255,55 @@ type atlasRec struct {
 }
 
 func atlasRun(id int, name string, m *model3d.Mesh) atlasRec {
-	rec := atlasRec{ID: id, Kind: "atlas", Site: "BuildAutomaticUVMap", Mesh: name, InUnit: true, Bary: true, Rects: []rectI{}}
+	return atlasJudge(id, "BuildAutomaticUVMap", name, m.NumTriangles(), model2d.XY(0, 0), model2d.XY(1, 1), func() model3d.MeshUVMap {
+		return model3d.BuildAutomaticUVMap(m, 64, false)
+	})
+}
+
+// packRun: k fan-shaped charts (each parameterised on its own) packed into a w x h rectangle
+func packRun(id int, rng *rand.Rand, k int, w, h float64) atlasRec {
+	var params []model3d.MeshUVMap
+	ntris := 0
+	for i := 0; i < k; i++ {
+		// a fan that is star-shaped around its centre in the xy projection (angular steps < 180 degrees),
+		// so that the projection used as its chart has no overlapping triangles
+		n := 4 + rng.Intn(3)
+		disc := model3d.NewMesh()
+		ctr := model3d.XYZ(0.1, -0.1, 0.5)
+		rim := make([]model3d.Coord3D, n)
+		for j := range rim {
+			a := 2 * math.Pi * (float64(j) + 0.3*rng.Float64()) / float64(n)
+			r := 1 + rng.Float64()
+			rim[j] = model3d.XYZ(r*math.Cos(a), r*math.Sin(a), 0.3*rng.Float64())
+		}
+		for j := range rim {
+			disc.Add(&model3d.Triangle{ctr, rim[j], rim[(j+1)%n]})
+		}
+		// shift the charts apart in 3-D so that their triangles are distinct objects of one surface
+		disc = disc.Translate(model3d.XYZ(float64(5*i), 0, 0))
+		mapping := model3d.NewCoordMap[model2d.Coord]()
+		for _, v := range disc.VertexSlice() {
+			mapping.Store(v, model2d.XY(v.X-float64(5*i), v.Y).Scale(1+0.5*rng.Float64()))
+		}
+		params = append(params, model3d.NewMeshUVMapForCoords(disc, mapping))
+		ntris += disc.NumTriangles()
+	}
+	site := fmt.Sprintf("PackMeshUVMaps:%gx%g", w, h)
+	return atlasJudge(id, site, fmt.Sprintf("%d fans", k), ntris, model2d.XY(0, 0), model2d.XY(w, h), func() model3d.MeshUVMap {
+		return model3d.PackMeshUVMaps(model2d.XY(0, 0), model2d.XY(w, h), 1.0/64, params)
+	})
+}
+
+func atlasJudge(id int, site, name string, ntris int, lo, hi model2d.Coord, build func() model3d.MeshUVMap) atlasRec {
+	rec := atlasRec{ID: id, Kind: "atlas", Site: site, Mesh: name, InUnit: true, Bary: true, Rects: []rectI{}}
 	outcome, pan := withDeadline(120*time.Second, func() {
-		uv := model3d.BuildAutomaticUVMap(m, 64, false)
-		if len(uv) != m.NumTriangles() {
+		uv := build()
+		if len(uv) != ntris {
 			rec.Bary = false
 		}
 		for _, tri := range uv {
 			for _, c := range tri {
-				if !(c.X >= 0 && c.X <= 1 && c.Y >= 0 && c.Y <= 1) {
+				if !(c.X >= lo.X && c.X <= hi.X && c.Y >= lo.Y && c.Y <= hi.Y) {
 					rec.InUnit = false
 				}
 			}
@@ -476,6 +517,12 @@ func init() {
 				for _, b := range []string{"diamond", "circle"} {
 					id++
 					out.write(floaterRun(id, "symfan", symFan(), w, b))
+				}
+			}
+			for _, k := range []int{1, 2, 3, 5, 6, 9, 18} {
+				for _, sz := range [][2]float64{{1, 1}, {1, 2}, {1, 3}, {2, 1}, {3, 2}} {
+					id++
+					out.write(packRun(id, rng, k, sz[0], sz[1]))
 				}
 			}
 			for _, name := range []string{"box", "voxL", "ico", "torus", "two"} {
